@@ -339,6 +339,12 @@ fn scheduling_case(_ctx: &mut Ctx, _idx: u64, r: &mut Rng) -> Result<u64, String
 		}
 		_ => {}
 	}
+	// (a waiting sound whose clock is dropped is cancelled whether or not it was paused in the meantime)
+	let paused_waiting = kind == 3 && r.chance(0.5);
+	if paused_waiting {
+		let d = if r.chance(0.5) { 0.0 } else { r.f64_in(0.0, 0.01) };
+		sound.pause(Tween { duration: Duration::from_secs_f64(d), ..Default::default() });
+	}
 	// clock history: start now or a few callbacks later, optionally one pause window
 	let start_after = r.usize_in(0, 3);
 	let pause_at = if r.chance(0.4) { Some(r.usize_in(start_after + 1, start_after + 6)) } else { None };
@@ -429,7 +435,7 @@ fn scheduling_case(_ctx: &mut Ctx, _idx: u64, r: &mut Rng) -> Result<u64, String
 			// clock removed: the waiting sound is cancelled
 			if cb >= ra + 3 {
 				if sound.state() != PlaybackState::Stopped {
-					return Err(format!("the clock was dropped before callback {} but the sound waiting on it is still {:?} after callback {}", ra, sound.state(), cb - 1));
+					return Err(format!("the clock was dropped before callback {} but the sound waiting on it{} is still {:?} after callback {}", ra, if paused_waiting { " (paused while it waited)" } else { "" }, sound.state(), cb - 1));
 				}
 				if observed_frame.is_some() {
 					return Err("sound scheduled on a removed clock became audible".into());
